@@ -1,71 +1,142 @@
-"""Regenerates MANIFEST.json (run by hand after changing the set of claimed properties)."""
+"""Regenerates MANIFEST.json (run by hand after changing the set of claimed properties or of contract units)."""
 import json
-BOUNDED_NOTE = ('Bounded stand-in, never counted as proved: the container-level functions (SQLAlchemy sessions, directory '
-                'operations) are outside the reach of the pyvc deductive engine, so their contracts (postconditions over a '
-                'ghost key->bytes map, taken from the property statement) are evaluated at run time on the real code over '
-                'seeded histories; bound = number of cases x steps given in evidence. Trusts: the ghost-model oracle in '
-                '/verif/bounded, CPython, SQLite, the scratch file system (/dev/shm).')
-CLAIMS = {
- 'C01': ('other', 'Mixed. Proved for all inputs: the read side (PackedObjectReader, LazyLooseStream, decompresser read/tell/seek, '
-         'CallbackStreamWrapper, ZeroStream) meets the in-memory-file contract, by symbolic execution of the real bodies with z3. '
-         'Bounded: every write path x configuration x content class returns the digest and reads back whole/chunked/bulk.',
-         'pyvc environment model and z3 trusted for the proved part; ' + BOUNDED_NOTE, 'contracts + VC generation (read side), run-time contracts (write side)'),
- 'C07': ('proof', 'Per-function proof, for all states and arguments, that read/seek/tell of every stream class refine an in-memory '
-         'binary file over the object bytes (position, returned value, no byte outside the object, rejected seeks leave the '
-         'position). Functions whose obligations z3 cannot discharge (_read_compressed loop lemma, _seek_internal) are listed as '
-         'undecided/assumed in the evidence and are covered only by the bounded stream-program differential check against io.BytesIO.',
-         'pyvc subset semantics of Python, environment model of file objects and zlib, z3; _seek_internal contract assumed; '
-         'composition through Container.get_object_stream is bounded only', 'sidecar contracts, symbolic execution of the real AST, z3'),
+import os
+import subprocess
+
+HERE = os.path.dirname(os.path.abspath(__file__))
+code = ('import importlib,json,check\nout=[]\n'
+        'for m in check.CONTRACT_MODULES:\n  mod=importlib.import_module("contracts."+m)\n'
+        '  for u in mod.UNITS:\n    out.append({"name":u.name,"props":list(u.props),"trusted":bool(u.trusted),"tier":getattr(u,"tier","quick"),"bounded":bool(getattr(u,"bounded",False)),"quick_props":list(getattr(u,"quick_props",None) or u.props)})\n'
+        'print(json.dumps(out))')
+units = json.loads(subprocess.run(['python3-vt', '-c', code], capture_output=True, text=True, cwd=HERE,
+                                  env=dict(os.environ, PYTHONPATH=HERE), check=True).stdout)
+
+
+def proved_units(p, tier=None):
+    seen, out = set(), []
+    for u in units:
+        in_quick = u['tier'] != 'thorough' and p in u['quick_props']
+        if p in u['props'] and not u['trusted'] and not u['bounded'] and u['name'] not in seen and \
+                (tier is None or (tier == 'quick') == in_quick):
+            seen.add(u['name'])
+            out.append(u['name'].split(':', 1)[1])
+    return out
+
+
+def assumed_units(p):
+    return sorted({u['name'].split(':', 1)[1] for u in units if p in u['props'] and u['trusted']})
+
+
+BOUNDED_NOTE = ('Bounded part (never counted as proved): postconditions taken from the property statement are evaluated at run time on '
+                'the real code against a ghost key->bytes map / raw sqlite3+zlib reads over seeded cases; bound = number of cases x '
+                'steps given in evidence. Trusts: the ghost-model oracle in /verif/bounded, CPython, SQLite, the scratch file '
+                'system (/dev/shm).')
+DED_NOTE = ('Deductive part: pyvc (home-made VC generator: symbolic execution of the real AST against sidecar contracts, z3 5.1). '
+            'Trusted: the encoded Python subset semantics, the environment models (file objects, directory entries, fsync, hashlib, '
+            'zlib, SQLite/SQLAlchemy sessions and statements, str(int)), generalisation of chunk-size literals, z3, and the assumed '
+            'summaries listed in evidence (functions_assumed). ')
+FAULT_NOTE = ('Bounded part (never counted as proved): every I/O-relevant call (open/write/flush/close/truncate, '
+              'os.rename/replace/link/unlink/remove/fsync/mkdir, Session.execute/commit; in the fault family also read-opens) of 13 '
+              'operation variants on seeded prepared containers is intercepted from outside the repository; the folder is copied '
+              'before each call and after completion (crash state), cut back to last-fsync content (power loss), or the call '
+              'raises (EIO, for opens also EACCES). Trusts: copying the folder = the state a killed process leaves; SQLite WAL '
+              'commits durable; directory operations survive power loss; the interception sees every I/O call of the library.')
+
+TEXT = {
+ 'C01': 'Mixed. Proved for all inputs: every stream class meets the in-memory-file contract (read side); the loose write path '
+        '(HashWriterWrapper, ObjectWriter.__enter__/__exit__, add_streamed_object, add_object: key = digest of exactly the streamed '
+        'bytes, published copy = those bytes) and the pack write step (_write_data_to_packfile: appended bytes = the object / a '
+        'complete zlib stream of it, digest and size returned) hold for every content, chunking (short reads) and configuration; '
+        'thorough tier: the per-object steps of pack_all_loose and add_streamed_objects_to_pack. Bounded: every write path x '
+        'configuration x content class returns the digest and reads back whole/chunked/bulk (incl. lowered lookup thresholds).',
+ 'C02': 'Mixed. Proved: add_streamed_object / add_object add exactly one key with exactly the bytes and touch no other object; '
+        '_clean_loose_objects removes exactly the requested loose files; thorough: pack_all_loose with the full frame invariant '
+        '(index only grows, loose files disappear only when indexed). Bounded: every view equals the ghost map after every step of '
+        'seeded histories over all public operations and parameter combinations (incl. repack_pack of single packs followed by close).',
+ 'C03': 'Mixed. Proved: _write_data_to_packfile appends exactly the encoding of the object at the end of the pack; the every-change '
+        'variant of add_streamed_objects_to_pack: every row inserted under the pack lock designates bytes inside the pack that '
+        '(inflated) hash to the key with the recorded size, new rows lie beyond the previous end of the pack; thorough: all flag '
+        'combinations and pack_all_loose. Bounded: after every step the index, packs and loose folder are re-read with sqlite3+zlib only.',
+ 'C05': 'Mixed. Proved (effect-point obligations on the real bodies): the loose writer renames only a closed, complete, fsynced '
+        'sandbox file; pack_all_loose commits only rows whose byte ranges are in the kernel-visible pack content (pack closed) and '
+        'unlinks a loose file only when its key is in the committed index; lock_pack releases the lock on every exit. Bounded: the '
+        'folder is copied before every intercepted I/O call and after completion of 13 operation variants; a new handle must find '
+        'every earlier object complete, no partial object under a key, never wrong bytes.',
+ 'C06': 'Mixed. Proved: safe_flush_to_disk forces all written bytes to stable storage on Linux/macOS/Windows profiles and leaks no '
+        'descriptor; the loose writer publishes only a durable file; with do_fsync on, pack_all_loose commits only rows whose ranges '
+        'are below the synced watermark. Bounded: as C05 with every regular file cut back to its content at its last fsync.',
+ 'C07': 'Per-function proof, for all states and arguments, that read/seek/tell of every stream class (PackedObjectReader, '
+        'LazyLooseStream, the zlib decompresser incl. _read_compressed and _seek_internal, CallbackStreamWrapper, ZeroStream) refine '
+        'an in-memory binary file over the object bytes (position, returned values, no byte outside the object, rejected seeks leave '
+        'the position). The composition through Container.get_object_stream over all storage forms is bounded (random programs vs io.BytesIO).',
+ 'C09': 'Mixed. Proved: ObjectWriter.__exit__ keeps a correct existing copy (same inode, no second file), replaces a damaged one, '
+        '_compute_hash_for_file returns the digest of the current file content (a memoised version fails), the every-change '
+        'variant of add_streamed_objects_to_pack with no_holes. Bounded: histories with recurring contents (one row / file per key, '
+        'no growth and no unreferenced bytes with no_holes).',
+ 'C10': 'Mixed. Proved: should_compress honours YES/NO/KEEP and leaves the stream position untouched, estimate_compression restores '
+        'the position, _write_data_to_packfile stores a complete zlib stream of the object iff asked. Bounded: flags, sizes, lengths, '
+        'totals and bulk metadata after every pack/repack, chained modes.',
+ 'C12': 'Mixed. Proved: the hashing helpers used by validate (compute_hash_and_size, _compute_hash_for_file) return the digest and '
+        'length of exactly the bytes read. Bounded: validate() clean after every step; never clean after bit flips / index-field '
+        'perturbations / loose damage that change what is read.',
+ 'C13': 'Mixed. Proved: _get_pack_id_to_write_to returns the first pack at or above the cached id that is absent or below target and '
+        'every skipped pack is full; lock_pack opens the pack in append mode at its end under an exclusive lock; '
+        '_write_data_to_packfile only appends (flushed content only grows). Bounded: pack bytes compared before/after every step.',
+ 'C14': 'Mixed. Proved: compute_hash_and_size (used for the destination key). Bounded: import over hash types^2 x forms x memory '
+        'budgets x iterable kinds x callback.',
+ 'C17': 'Mixed. Proved: ObjectWriter.__exit__ under any single failing environment call leaves the previous copy or a complete '
+        'one and closes the handle; a HashWriterWrapper whose previous write failed half-way refuses further writes; lock_pack '
+        'releases the lock when the body raises. Bounded: each intercepted I/O call raises in turn (EIO; opens also EACCES), the store '
+        'is checked through a new handle and the operation re-run.',
+ 'C18': 'Mixed. Proved: safe_flush_to_disk, ObjectWriter.__exit__, lock_pack, _compute_hash_for_file leave no descriptor open; a '
+        'sized read of the decompresser never asks zlib for unbounded output. Bounded: /proc/self/fd census after every step and after close().',
+ 'C08': 'Bounded run-time contract check on the real code: sequential histories over up to 3 handles on one folder; every handle '
+        '(whose snapshot earlier queries pinned; existence checks issued before and after listings) must answer exactly as the ghost map.',
+ 'C11': 'Mixed. Proved (effect order of repack_pack on the real body): a pack file is removed/unlinked only when no COMMITTED index row '
+        'points into it, every commit publishes only rows lying inside flushed and synced bytes of an existing pack, the temporary '
+        'pack and the lock are gone at return, rows of other packs untouched. Bounded: delete returns exactly the existing requested '
+        'keys, others unchanged, stray duplicate files of several deleted keys removed; after a full repack every pack is the '
+        'concatenation of its live ranges.',
+ 'C16': 'Bounded run-time contract check on the real code: bulk = map(single) with the lookup thresholds lowered (requests with few and '
+        'many missing keys); pack/clean over n loose objects on both sides of the thresholds; merge helpers checked exhaustively over '
+        'all pairs of sorted unique sequences of a 6-element universe. Deductive contracts exist only as assumed summaries.',
 }
-for p, t in {
- 'C02': 'views (has/get/meta/list/count, single and bulk, every handle) equal the ghost map after every step of seeded histories over all public operations and parameter combinations',
- 'C03': 'after every step the index, packs and loose folder are re-read with sqlite3 + zlib only: ranges inside packs, no overlap, unique keys, digests and sizes match',
- 'C09': 'seeded histories with recurring contents: one index row / loose file per key, listing count = distinct contents, no_holes leaves no unreferenced bytes and no growth for known content',
- 'C10': 'after every pack/repack: compressed flag per requested mode, size = content length, length = bytes occupied, totals are sums, content unchanged',
- 'C11': 'delete returns exactly the existing requested keys, others unchanged; after a full repack every pack is the concatenation of its live ranges and empty packs are gone',
- 'C12': 'validate() clean after every step of seeded histories; after single-bit flips / index-field perturbations / loose damage that change what is read, validate() is never clean',
- 'C13': 'without repack: referenced bytes never change, packs never shrink below the last referenced byte, ids consecutive from 0, all but the last at target size and untouched',
- 'C14': 'import over hash types^2 x forms x memory budgets x iterable kinds x callback: mapping correct, bytes identical, existing rows untouched, no second entry',
- 'C16': 'bulk = map(single) with the SQL-IN / full-scan thresholds lowered so small requests cross them; merge helpers checked exhaustively over all pairs of sorted unique sequences of a 6-element universe (exhaustive for that universe) and all short unsorted inputs rejected',
- 'C18': 'descriptor census of /proc/self/fd inside the container after every step and after close(); lazily opened inputs closed; safe_flush_to_disk does not grow descriptors over 40 calls',
-}.items():
-    CLAIMS[p] = ('exploration', 'Bounded run-time contract check on the real code: ' + t + '.', BOUNDED_NOTE, 'run-time contracts over a ghost model (bounded)')
-
-FAULT_NOTE = ('Bounded stand-in, never counted as proved: every I/O-relevant call (module-level open/write/flush/close/truncate, '
-              'os.rename/replace/link/unlink/remove/fsync/mkdir, Session.execute/commit) of ten operation variants on seeded prepared '
-              'containers is intercepted from outside the repository; bound = the operations and states listed in evidence. Trusts: '
-              'copying the folder before a call equals the state a killed process leaves; SQLite WAL commits are durable; directory '
-              'operations survive power loss; the interception sees every I/O call the library makes.')
-for p, t in {
- 'C05': 'the folder is copied before every intercepted I/O call (user-space buffers lost) and a new handle must find every earlier object complete, no partial object under a key, never wrong bytes (an interrupted repack may fail loudly)',
- 'C06': 'as C05, and every regular file of the copy is cut back to its content at its last fsync (empty if never synced); plus safe_flush_to_disk must fsync the flushed file and its directory for use_fullsync in {False, True}',
- 'C17': 'each intercepted I/O call in turn raises OSError (OperationalError for SQL); afterwards the store is intact through a new handle and re-running the operation reaches its normal result (repack excepted)',
-}.items():
-    CLAIMS[p] = ('fault_enumeration', 'Bounded run-time contract check on the real code: ' + t + '.', FAULT_NOTE, 'I/O interposition + crash-state / fault postconditions (bounded)')
-CLAIMS['C08'] = ('exploration', 'Bounded run-time contract check on the real code: sequential histories over up to 3 handles on one folder; after every step every handle (whose snapshot the previous round of queries pinned) must answer has/get/meta/list exactly as the ghost map.', BOUNDED_NOTE, 'run-time contracts over a ghost model (bounded)')
-
+CAT = {'C07': 'proof', 'C08': 'exploration', 'C16': 'exploration'}
 NA = {
- 'C04': 'schedules of concurrent clients: contract-based deductive verification is silent on concurrency; the rely/guarantee design of DESIGN.md section 4 needs container-level contracts that pyvc does not reach (no SQL/directory model). No sound check was built, so the property is not claimed.',
- 'C15': 'schedules of a concurrent backup (rsync/sqlite subprocesses): outside what contracts on Python functions can express here. Not claimed.',
+ 'C04': 'schedules of concurrent clients: contract-based deductive verification decides properties of one call or one data structure and '
+        'is silent on interleavings; the sequential ordering facts the argument rests on (commit after close/sync, unlink after commit, '
+        'rename after fsync) are proved and claimed under C05/C06. No sound check of the schedules themselves was built.',
+ 'C15': 'schedules of a concurrent backup through rsync/sqlite3 subprocesses: outside what contracts on Python functions can express here. Not claimed.',
 }
-import sys
-extra = json.load(open('manifest_extra.json')) if len(sys.argv) > 1 else {}
 checks = []
-for p in sorted(CLAIMS):
-    cat, text, note, tech = CLAIMS[p]
+for p in sorted(TEXT):
+    cat = CAT.get(p, 'other')
+    q, t = proved_units(p, 'quick'), proved_units(p, 'thorough')
+    ded = ''
+    if q or t:
+        ded = DED_NOTE + f'Functions under checked contract in the quick tier: {", ".join(q) or "none"}. '
+        if t:
+            ded += f'Thorough tier only: {", ".join(t)}. '
+    asm = assumed_units(p)
+    if asm:
+        ded += f'Assumed summaries: {", ".join(asm)}. '
+    note = ded + (FAULT_NOTE if p in ('C05', 'C06', 'C17') else BOUNDED_NOTE)
+    tech = ('contracts on the real functions + VC generation + z3 (pyvc)' + ('; ' if cat != 'proof' else '; composition: ')
+            + 'run-time contracts over a ghost model (bounded)') if (q or t) else 'run-time contracts over a ghost model (bounded)'
     checks.append({'property_id': p, 'quick_cmd': f'python3 check.py {p} --tier quick', 'thorough_cmd': f'python3 check.py {p} --tier thorough',
                    'evidence_file': f'/verif/evidence/{p}.json', 'replay_cmd_template': '/venv/bin/python bounded/run.py --replay {path}',
-                   'engine': 'pyvc+bounded' if p in ('C01', 'C07') else 'bounded',
-                   'level_claimed': {'category': cat, 'text': text, 'design_ref': 'DESIGN.md section 0 (status) and section 4'},
+                   'engine': 'pyvc+bounded' if (q or t) else 'bounded',
+                   'level_claimed': {'category': cat, 'text': TEXT[p], 'design_ref': 'DESIGN.md section 0.S'},
                    'level_note': note, 'technique': tech})
+ded_props = sorted(p for p in TEXT if proved_units(p))
 m = {'version': 1, 'setup_cmd': 'python3 setup_check.py',
      'hooks': {'guard': 'DISK_OBJECTSTORE_VERIF', 'enable': 'no hooks are needed: contracts are sidecar files, bodies are re-read from /repo on every run, run-time contracts observe from outside the repository',
                'baseline_off_cmd': 'cd /repo && /venv/bin/python -m pytest -ra -q -p no:cacheprovider --timeout=900 --continue-on-collection-errors',
                'source_commits': [], 'add_only': True},
-     'engines': [{'name': 'pyvc', 'path': '/verif/pyvc', 'serves_properties': ['C01', 'C07'], 'kind_free_text': 'home-made VC generator: symbolic execution of the real Python AST against sidecar contracts, z3 back end'},
-                 {'name': 'bounded', 'path': '/verif/bounded', 'serves_properties': sorted(CLAIMS), 'kind_free_text': 'run-time contracts over a ghost model on seeded cases (bounded stand-in)'}],
+     'engines': [{'name': 'pyvc', 'path': '/verif/pyvc', 'serves_properties': ded_props, 'kind_free_text': 'home-made VC generator: symbolic execution of the real Python AST against sidecar contracts, environment models of files / directories / SQLite sessions, z3 back end'},
+                 {'name': 'bounded', 'path': '/verif/bounded', 'serves_properties': sorted(TEXT), 'kind_free_text': 'run-time contracts over a ghost model on seeded cases (bounded stand-in)'}],
      'checks': checks,
-     'notes': 'Only obligations discharged by pyvc/z3 are counted as proved; everything produced by /verif/bounded is a bounded stand-in. See DESIGN.md section 0.',
+     'notes': 'Only obligations discharged by pyvc/z3 are counted as proved; everything produced by /verif/bounded is a bounded stand-in. See DESIGN.md section 0.S.',
      'not_applicable': [{'property_id': p, 'reason': r} for p, r in sorted(NA.items())]}
-json.dump(m, open('MANIFEST.json', 'w'), indent=1)
-print(len(checks), 'checks')
+json.dump(m, open(os.path.join(HERE, 'MANIFEST.json'), 'w'), indent=1)
+print(len(checks), 'checks;', 'deductive units serve', ded_props)
